@@ -640,7 +640,7 @@ namespace Clipper2Lib {
   {
     const size_t len = path.size(), high = len -1;
     const double epsSqr = Sqr(epsilon);
-    if (len < 4) return Path<T>(path);
+    if (len < 3) return Path<T>(path);
 
     std::vector<bool> flags(len);
     std::vector<double> distSqr(len);
